@@ -224,7 +224,7 @@ let gen_history ?(cfgstr : string option) (idx : int) (prof : profile) (oc : out
                 (if connected () then 2 else 0), `Sleep;
                 (3, `BrokerStuff); (5, `Adv); (2, `Disconnect0); (prof.p_malformed, `Malformed); (2, `Terminal) ]
       else if asleep then
-        pickw [ (25, `Pingreq); (25, `BrokerPublish); (8, `Adv); (8, `BigAdv); (5, `Connect); (5, `Disconnect0); (5, `Sleep);
+        pickw [ (25, `Pingreq); (25, `BrokerPublish); (8, `Adv); (8, `BigAdv); (5, `Connect); (4, `WakeOtherId); (5, `Disconnect0); (5, `Sleep);
                 (5, `ClientAck); (4, `BrokerStuff); (3, `ClientPublish); (3, `Terminal); (2, `Register); (6, `Progress) ]
       else
         pickw [ (14, `Register); (16, `ClientPublish); (12, `Subscribe); (5, `Unsubscribe); (prof.p_broker_pub, `BrokerPublish);
@@ -259,7 +259,12 @@ let gen_history ?(cfgstr : string option) (idx : int) (prof : profile) (oc : out
     | `Unsubscribe -> emit_or_skip (ev_sn (unsubscribe ()))
     | `Pingreq -> emit_or_skip (ev_sn (Pingreq (if coin () then bs cid else [])))
     | `Pubrel -> emit_or_skip (ev_sn (Pubrel (nn (some_mid ()))))
-    | `Disconnect0 -> emit_or_skip (ev_sn (Disconnect (nn 0))); terminal := true
+    | `Disconnect0 ->
+      (* one in four in the other legal encoding: the Duration field present with value 0 (04 18 00 00) *)
+      let long = rnd 4 = 0 in
+      emit_or_skip (if long then ev_raw [nn 4; nn 24; nn 0; nn 0] else ev_sn (Disconnect (nn 0))); terminal := true;
+      (* ... sometimes followed at once by a CONNECT: the session is over, nothing may answer it (C07) *)
+      if long && coin () then ignore (emit (ev_sn (connect_pkt ())))
     | `Sleep ->
       let k = int_of_n !s.gw_keepalive in
       (* incl. durations whose low byte is zero (two-byte field) *)
@@ -350,6 +355,20 @@ let gen_history ?(cfgstr : string option) (idx : int) (prof : profile) (oc : out
             | _ -> emit_or_skip (ev_mq (MqPuback (nn cm))));
          if rnd 4 = 0 then adv_safe (1 + rnd 30);
          if alive () then emit_or_skip (ev_sn (if q = 1 then Puback (nn tid, nn tid, nn 0) else Pubrec (nn tid))))
+    | `WakeOtherId ->
+      (* C32 / C04: a sleeping client returns with a CONNECT that carries ANOTHER client ID (the session keeps its
+         identity: doc/specification-interpretation.md); then traffic on predefined topic IDs, whose names differ
+         between the client IDs of the shared configuration, in both directions *)
+      let other = (match List.filter (fun c -> c <> cid) clients with [] -> cid | l -> pick l) in
+      emit_or_skip (ev_sn (Connect (false, false, nn 1, nn (pick [2; 5; 60]), bs other)));
+      let alive () = !s.gw_ending = None && not !s.gw_ended in
+      for _ = 1 to 1 + rnd 3 do
+        if alive () then
+          (match rnd 3 with
+           | 0 -> emit_or_skip (ev_sn (Publish (false, nn 0, false, nn 1, nn (pick [1; 2; 3; 5; 6]), nn 0, payload ())))
+           | 1 -> emit_or_skip (ev_sn (Subscribe (false, nn (rnd 2), nn 1, nn (fresh_mid ()), nn (pick [1; 2; 3; 5; 6]), [])))
+           | _ -> emit_or_skip (ev_mq (MqPublish (false, nn 0, false, bs (pick pnames), nn 0, payload ()))))
+      done
     | `CrossReg ->
       (* C06 / C02: a client QoS 1 PUBLISH (or SUBSCRIBE) in flight without the broker's answer; a broker PUBLISH with the
          SAME message ID on a topic without ID starts its REGISTER step; the client's exchange times out (or is
@@ -389,6 +408,14 @@ let gen_history ?(cfgstr : string option) (idx : int) (prof : profile) (oc : out
     | `Terminal ->
       emit_or_skip (pick ["SHUTDOWN"; "MQEOF"; "MQRAW x0000"; "MQRAW xf000"; "MQ PINGREQ"; "MQ DISCONNECT"; "SHUTDOWN"; "MQEOF"]);
       terminal := true in
+  (* C07: now and then the very first datagram of a session is a DISCONNECT in its other legal encoding (Duration field
+     present, value 0), followed at once by a CONNECT and a PUBLISH: the session is over, nothing may answer them *)
+  if rnd 40 = 0 then begin
+    ignore (emit (ev_raw [nn 4; nn 24; nn 0; nn 0]));
+    ignore (emit (ev_sn (connect_pkt ())));
+    ignore (emit (ev_sn (Publish (false, nn 0, false, nn 2, encode_short (bs "ab"), nn 0, [nn 1]))));
+    terminal := true
+  end;
   let len = 4 + rnd 36 in
   let k = ref 0 in
   while !k < len && not !terminal && !s.gw_ending = None && not !s.gw_ended do
